@@ -220,11 +220,11 @@ func downloadFile(url, filepath string) error {
 }
 
 // securePath joins an archive entry name to dest and rejects names that would
-// end up outside dest ("zip slip").
+// end up outside dest ("zip slip"). The destination itself (entry "./") is allowed.
 func securePath(dest, name string) (string, error) {
 	root := filepath.Clean(dest)
 	target := filepath.Join(root, name)
-	if !strings.HasPrefix(target, root+string(os.PathSeparator)) {
+	if target != root && !strings.HasPrefix(target, root+string(os.PathSeparator)) {
 		return "", fmt.Errorf("%s: illegal file path", target)
 	}
 	return target, nil
